@@ -74,6 +74,39 @@ impl RunOutput {
     }
 }
 
+/// Structural rendering of a returned AST through the PUBLIC enum (never through `{:?}`: the
+/// derived Debug output is not part of any property).  Same text as `Expr::ast_debug`.
+pub fn ast_text(ast: &ExprAST) -> String {
+    fn list(xs: &[ExprAST]) -> String {
+        xs.iter().map(ast_text).collect::<Vec<_>>().join(", ")
+    }
+    match ast {
+        ExprAST::Literal(_) => {
+            // the literal's payload type is private; its source rendering is public
+            let t = ast.expr();
+            if t == "true" || t == "false" {
+                format!("Literal(Bool({}))", t)
+            } else if t.len() >= 2 && t.starts_with('"') && t.ends_with('"') {
+                format!("Literal(String({:?}))", &t[1..t.len() - 1])
+            } else {
+                format!("Literal(Number({}))", t)
+            }
+        }
+        ExprAST::Reference(n) => format!("Reference({:?})", n),
+        ExprAST::Function(n, args) => format!("Function({:?}, [{}])", n, list(args)),
+        ExprAST::Unary(op, e) => format!("Unary({:?}, {})", op, ast_text(e)),
+        ExprAST::Binary(op, l, r) => format!("Binary({:?}, {}, {})", op, ast_text(l), ast_text(r)),
+        ExprAST::Postfix(e, op) => format!("Postfix({}, {:?})", ast_text(e), op),
+        ExprAST::Ternary(c, a, b) => format!("Ternary({}, {}, {})", ast_text(c), ast_text(a), ast_text(b)),
+        ExprAST::List(xs) => format!("List([{}])", list(xs)),
+        ExprAST::Map(xs) => {
+            format!("Map([{}])", xs.iter().map(|(k, v)| format!("({}, {})", ast_text(k), ast_text(v))).collect::<Vec<_>>().join(", "))
+        }
+        ExprAST::Stmt(xs) => format!("Stmt([{}])", list(xs)),
+        ExprAST::None => "None".to_string(),
+    }
+}
+
 type Sharer = Box<dyn Fn() -> Context + Send + Sync>;
 
 fn sharer(c: &Context) -> Sharer {
@@ -283,7 +316,7 @@ impl Env {
             Op::Parse { prog } => {
                 let text = prog.text();
                 match parse_expression(&text) {
-                    Ok(ast) => Res::Ast(format!("{:?}", ast)),
+                    Ok(ast) => Res::Ast(ast_text(&ast)),
                     Err(e) => Res::E(e.to_string()),
                 }
             }
@@ -293,7 +326,7 @@ impl Env {
                     Ok(ast) => ast,
                     Err(e) => return Res::E(e.to_string()),
                 };
-                let mut out = vec![Res::Ast(format!("{:?}", ast))];
+                let mut out = vec![Res::Ast(ast_text(&ast))];
                 for _ in 0..*times {
                     let mut c = self.ctx(ctx);
                     let r = Self::eval_res(ast.exec(&mut c));
